@@ -87,7 +87,7 @@ pub trait BEDLike {
         let end = self.end();
         (start..end)
             .step_by(bin_size as usize)
-            .map(move |x| GenomicRange::new(self.chrom(), x, (x + bin_size).min(end)))
+            .map(move |x| GenomicRange::new(self.chrom(), x, x.saturating_add(bin_size).min(end)))
     }
 
     /// Split into consecutive records with the specified length starting from the end.
